@@ -195,7 +195,14 @@ func init() {
 		// (which each of them requires), not with one resolved some other way
 		c.ruleCfgSrc()
 		c.only([]string{"REQ-RESULT/REQUIRES|<-ConfigReader"}, func() { c.ruleReqResult() })
-	}, Explanation: "Flags defined = flags read = documented flags; each flag's default is the environment-derived value (flag > env > default by construction of package flag); FromEnv reads exactly the documented variables, lists through os.LookupEnv (set-but-empty honoured) with the documented defaults, the bool through parseBool on a non-empty value; parseStringList = split on commas, trim, drop empty, upper-case iff requested (requested for check codes on both paths); parseBool = strconv.ParseBool(lower(trim)) else yes/on; the analyzer owning the flags is named config and parses &pass.Analyzer.Flags once; the configuration cone has no reachable panic site; the resolved ScanTests / ExcludePaths are consumed by ShouldSkipFile as (name contains an exclude-paths entry) or (!ScanTests and *_test.go), each option independently of the other."})
+		// ... and the resolved ExcludeChecks: handed to the ignore set as it is, matched there by plain membership
+		// (no order or form of the list is assumed)
+		c.ruleExcludeFlow()
+		c.only([]string{"IGNORESET/GLOBAL", "IGNORESET/OUTCOME", "IGNORESET/SHAPE", "IGNORESET/EXTRA-GUARD", "IGNORESET/MODULE"}, func() {
+			c.ruleIgnoreSetContains()
+			c.ruleIgnoreSetAdd()
+		})
+	}, Explanation: "Flags defined = flags read = documented flags; each flag's default is the environment-derived value (flag > env > default by construction of package flag); FromEnv reads exactly the documented variables, lists through os.LookupEnv (set-but-empty honoured) with the documented defaults, the bool through parseBool on a non-empty value; parseStringList = split on commas, trim, drop empty, upper-case iff requested (requested for check codes on both paths); parseBool = strconv.ParseBool(lower(trim)) else yes/on; the analyzer owning the flags is named config and parses &pass.Analyzer.Flags once; the configuration cone has no reachable panic site; the resolved ScanTests / ExcludePaths are consumed by ShouldSkipFile as (name contains an exclude-paths entry) or (!ScanTests and *_test.go), each option independently of the other; the resolved ExcludeChecks reaches IgnoreSet.AddModuleIgnore unconditionally and is matched by exact membership of a hierarchy element (whatever the order of its items)."})
 }
 
 func init() {
@@ -211,7 +218,10 @@ func init() {
 		c.ruleReqResult()
 		c.ruleMainExit()
 		c.ruleIgnoreScopeLineUnadj()
-	}, Explanation: "All product functions (superset of what is reachable from the analyzers): every dereference of a value from a nilable source is dominated by a nil check / comma-ok or discharged by a named rule (per-iteration assignment before the walk, lazy-initialisation helper); every unchecked type assertion is justified (REQ-RESULT, go/types contracts, dominating comma-ok); partial library APIs get their preconditions (MustCompile on compiling constants at init, Repeat counts from lengths, At(i)/Method(i) under i < Len(), LineStart on unadjusted lines); written maps come from make; integer divisions by non-zero constants; no explicit panic / os.Exit / log.Fatal; ReadFile error checked; loops are range, counting or scanner loops and recursion is structural descent; analyzers' ResultType/Requires agree (no driver-internal error). Index/slice bounds are reviewed only in the thorough tier."})
+		// resources: what the tool writes for one diagnostic is bounded by the text it shows, not by a number a
+		// //line directive names (found as D39)
+		c.only([]string{"EXCERPT/CARET-PAD/BOUNDED-BY-TEXT"}, func() { c.ruleExcerpt() })
+	}, Explanation: "All product functions (superset of what is reachable from the analyzers): every dereference of a value from a nilable source is dominated by a nil check / comma-ok or discharged by a named rule (per-iteration assignment before the walk, lazy-initialisation helper); every unchecked type assertion is justified (REQ-RESULT, go/types contracts, dominating comma-ok); partial library APIs get their preconditions (MustCompile on compiling constants at init, Repeat counts from lengths, At(i)/Method(i) under i < Len(), LineStart on unadjusted lines); written maps come from make; integer divisions by non-zero constants; no explicit panic / os.Exit / log.Fatal; ReadFile error checked; loops are range, counting or scanner loops and recursion is structural descent; analyzers' ResultType/Requires agree (no driver-internal error); the caret line of an excerpt is at most one byte longer than the shown text for any column (a //line directive can name any: found as D39). Index/slice bounds: by the linear-arithmetic prover."})
 	registerProp(&propDef{ID: "C17", Rules: func(c *Ctx) {
 		c.ruleCodeTable()
 		c.ruleReportGate()
@@ -220,6 +230,10 @@ func init() {
 			c.ruleSitesTONL()
 			c.ruleSitesPKGO()
 		})
+		// "appending // @ignore CODE to its line removes it": a suppressed report does not come back - neither as
+		// the next use of the same type (once-per-file bookkeeping behind the gate) nor as the bare identifier of
+		// the selector it was found with
+		c.ruleGateBeforeDedup("testonly", "packageonly")
 		c.rulePosInFile()
 		// "positioned inside a non-excluded file": which files are excluded
 		c.ruleSkipShape()
@@ -234,6 +248,7 @@ func init() {
 		c.ruleSitesIMPL()
 		c.ruleImportResolution()
 		c.ruleMatcherShape()
+		c.ruleTypeModelKey()
 		c.ruleTypeIdent()
 		c.ruleAliasAll("implements")
 		c.ruleQueries()
@@ -265,12 +280,16 @@ func init() {
 		c.ruleGlobalWrites()
 		c.ruleSharedReadOnly()
 		c.ruleMapOrder()
+		c.ruleMapIterators()
+		c.ruleSyntaxReadOnly()
 		c.ruleNoNondet()
 		c.ruleConfigWiring()
+		// "identical across repeated runs" under go vet: facts cached for one environment are not used under another
+		c.ruleToolIdentity()
 		// positions of different files are ordered by parse scheduling: a decision that assumes an insertion order
 		// of markers differs between runs
 		c.only([]string{"LOOP-COMPLETE"}, func() { c.ruleIgnoreSetContains() })
-	}, Explanation: "No goroutine, channel, atomic or WaitGroup in product code; package-level state is written only at initialisation, except the configuration cache written once inside sync.Once.Do and read after it; every object shared between concurrently running actions (package-level matchers/regexps/tables, the annotation result, the ignore set, the configuration, imported facts) is only read - write effects computed on the callee bodies including the Aho-Corasick dependency (Contains is read-only, Match is not); the body of every range over a map is order-independent accumulation; no clock, randomness, pointer formatting, and no environment read outside package config; no loop of IgnoreSet.Contains is left early without a match, so the answer does not depend on the order in which the files of a package were registered in the FileSet."})
+	}, Explanation: "No goroutine, channel, atomic or WaitGroup in product code; package-level state is written only at initialisation, except the configuration cache written once inside sync.Once.Do and read after it; every object shared between concurrently running actions (package-level matchers/regexps/tables, the annotation result, the ignore set, the configuration, imported facts) is only read - write effects computed on the callee bodies including the Aho-Corasick dependency (Contains is read-only, Match is not); the body of every range over a map is order-independent accumulation, maps.Keys / Values / All are consumed by a sort only; no field of a syntax node of the pass is assigned (the trees are shared by the analyzers of a package); the tool identity go vet keys its cache on covers the configuration variables (TOOL-ID); no clock, randomness, pointer formatting, and no environment read outside package config; no loop of IgnoreSet.Contains is left early without a match, so the answer does not depend on the order in which the files of a package were registered in the FileSet."})
 	registerProp(&propDef{ID: "C12", Rules: func(c *Ctx) {
 		c.ruleWalkState("immutable", "constructor", "testonly", "packageonly")
 		c.ruleWalkRoot("immutable", "constructor", "testonly", "packageonly")
@@ -297,6 +316,9 @@ func init() {
 		c.only([]string{"SCOPE-END/FIRST-NODE"}, func() { c.scopeNextNode() })
 		// gofmt sorts the specs of an import block: which import a qualifier names must not depend on their order
 		c.only([]string{"=RESOLVE-ORDER"}, func() { c.ruleImportResolution() })
+		// in which file of its package an annotated declaration stands decides the order in which the containers are
+		// filled: a mutated copy is stored back whether or not an earlier annotation created the inner maps
+		c.ruleCopyWriteback("util")
 	}, Explanation: "Nothing a walk callback (or what it calls) writes outlives the visit of one node except append-only accumulators and per-file dedup maps created inside the file loop; context fields read during a walk are re-assigned on every path of each iteration before the walk; walk roots are all top-level declarations / whole filtered files with no filter in between; no pruning except the @testonly FuncDecl prune decided on the declaration's own name; ordered position comparisons and line/column numbers occur only in scope computation and rendering; readers carry no state between declarations (doc selection per spec); identity is by object (receiver, direct callee), not by spelling."})
 	registerProp(&propDef{ID: "C13", Rules: func(c *Ctx) {
 		c.ruleAliasAll()
@@ -308,7 +330,10 @@ func init() {
 		})
 		// no file or declaration is skipped on the strength of how it spells things (its import list, its syntax)
 		c.ruleWalkRoot("immutable", "constructor", "testonly", "packageonly")
-		c.only([]string{"TYPE-RESOLVE", "ALIAS-RESOLVED", "PACKAGE-LEVEL", "NOT-POINTER", "IMMUTABLE-INDEX", "CONSTRUCTOR-INDEX", "TYPES-INDEX", "METHODS-INDEX", "FLOOR"}, func() {
+		// a reference is found whether it is written pkg.T, T (dot import, local alias) or as an embedded field: the
+		// object comes from TypesInfo.Uses, and an identifier is skipped only as the Sel of its selector
+		c.only([]string{"QUALIFIED-SET", "FLOOR"}, func() { c.ruleGateBeforeDedup("packageonly") })
+		c.only([]string{"TYPE-RESOLVE", "ALIAS-RESOLVED", "PACKAGE-LEVEL", "NOT-POINTER", "IMMUTABLE-INDEX", "CONSTRUCTOR-INDEX", "TYPES-INDEX", "METHODS-INDEX", "OBJECT-BY-USE", "UNEXPECTED-GUARD", "FLOOR"}, func() {
 			c.ruleSitesIMM()
 			c.ruleSitesCTOR()
 			c.ruleSitesTONL()
